@@ -1,4 +1,4 @@
-import I18n.Lemmas.PyFmtGroups
+import I18n.Lemmas.PyFmtReasons
 import I18n.Lemmas.PyFmtTables
 /-!
 # C12 — the Python %-format parser is consistent with CPython's `%` operator
@@ -161,6 +161,21 @@ theorem malformed_rejected {s : List Char} (hp : PlainPercent s) (h : ∀ a, for
   | error e => exact ⟨e, rfl⟩
   | ok r => exact absurd (accept_formats_canonical hp hr) (h _)
 
+/-- **The documented reason the parser gives is true of the string** (every string): among the conversion specifications
+    the scanner reads (`directives s`) there is, for `WidthRangeError`, a literal width above `SSIZE_MAX` = 2^31-1; for
+    `PrecisionRangeError`, a literal precision above 2^31-1, or above 2^31-4 on an integer conversion (CPython's own limit);
+    for `ArgumentIndexingMixture`, one that takes its value from the mapping and one that fetches a positional argument
+    (a `*` or a value without key); for `ArgumentTypeMismatch`, two with the same key whose conversions have different types. -/
+theorem reason_true {s : List Char} {e : PErr} (h : parse s = .error e) :
+    (e = .WidthRangeError → ∃ d ∈ directives s, ∃ n, d.width = .num n ∧ n > PyFormatTables.SSIZE_MAX) ∧
+    (e = .PrecisionRangeError → ∃ d ∈ directives s, ∃ n, d.prec = some (.num n) ∧
+      (n > PyFormatTables.SSIZE_MAX ∨ (PyFormatTables.intCvt.contains d.conv = true ∧ n > PyFormatTables.SSIZE_MAX - 3))) ∧
+    (e = .ArgumentIndexingMixture → (∃ d ∈ directives s, d.named) ∧ (∃ d ∈ directives s, d.unnamed)) ∧
+    (e = .ArgumentTypeMismatch → ∃ d1 ∈ directives s, ∃ d2 ∈ directives s, ∃ k, d1.key = some k ∧ d2.key = some k ∧
+      PyFormatTables.typeTable.lookup d1.conv ≠ PyFormatTables.typeTable.lookup d2.conv) :=
+  ⟨fun he => width_reason' (he ▸ h), fun he => precision_reason' (he ▸ h), fun he => mixture_reason' (he ▸ h),
+    fun he => mismatch_reason' (he ▸ h)⟩
+
 /-! ## Non-vacuity -/
 
 /-- named specifications with a nested-parenthesis key, and `%%` -/
@@ -196,5 +211,7 @@ example : format "%!".toList (.tuple [.int 1]) = .error .unsupportedChar := by r
 /-- outside the domain: the parser types `%5%` as consuming nothing, CPython 3.12 rejects it -/
 example : (parse "%5%".toList).map (·.seq) = .ok [] := by rfl
 example : format "%5%".toList (.tuple []) = .error .notEnoughArgs := by rfl
+example : (directives "a%(k)-5d%%%*s".toList).map (fun d => (d.key.map String.ofList, d.flags, d.width, d.conv)) =
+    [(some "k", ['-'], .num 5, 'd'), (none, [], .num 0, '%'), (none, [], .star, 's')] := by rfl
 
 end I18n.Props.C12
